@@ -55,11 +55,12 @@ def run_one(sc):
     import onl.netdev.red_port as red_mod
 
     cfg = sc["cfg"]
-    t0 = sc.get("t0", 0)          # the environment's clock starts at t0; instants are recorded relative to it
+    t0 = sc.get("t0", 0) * 2.0 ** sc.get("tscale", 0)    # the environment's clock starts at t0; instants are recorded relative to it
     env = Environment(t0) if t0 else Environment()
     rec = netlib.Recorder(env)
     K = cfg["K"]
-    rate = 0 if K == 0 else 8.0 / K
+    ts = 2.0 ** sc.get("tscale", 0)      # "tscale": e -- one tick = 2**e seconds, the rate 2**-e times as large (exact)
+    rate = 0 if K == 0 else 8.0 / K / ts
     elid = sc.get("elid", "p1")
     draws = Draws()
     base = {"id": 0, "sz": 0, "items": 0, "bytes": 0, "drops": 0, "busy": 0, "nrecv": 0, "un": -1, "ud": 1,
@@ -95,7 +96,7 @@ def run_one(sc):
         def put(self, pkt):
             i = pkt.packet_id
             st = pkt.perhop_time.get(elid) if isinstance(pkt.perhop_time, dict) else None
-            rec.ev.append(dict(base, e="D", t=ex(env.now - t0), id=i, sz=pkt.size, stamp=ex(st - t0) if st is not None else -1, **state()))
+            rec.ev.append(dict(base, e="D", t=ex((env.now - t0) / ts), id=i, sz=pkt.size, stamp=ex((st - t0) / ts) if st is not None else -1, **state()))
             notify[0]()
 
     # "noout": the port is the last element of the path; 1 = out is set to None, 2 = out is never assigned at all.
@@ -112,7 +113,7 @@ def run_one(sc):
 
     def on_arrival(i, a, pkt):
         u = draws.used or (-1, 1)
-        rec.ev.append(dict(base, e="A", t=ex(env.now - t0), id=i + 1, sz=a["sz"], un=u[0], ud=u[1], **state()))
+        rec.ev.append(dict(base, e="A", t=ex((env.now - t0) / ts), id=i + 1, sz=a["sz"], un=u[0], ud=u[1], **state()))
 
     mon = sc.get("mon")
     incl = 0
@@ -126,13 +127,13 @@ def run_one(sc):
             m = pm[0]
             if m is not None and len(m.sizes) > seen[0]:
                 seen[0] = len(m.sizes)
-                rec.ev.append(dict(base, e="S", t=ex(env.now - t0), x=ex(m.sizes[-1]), y=ex(m.sizes_byte[-1]), **state()))
-            return gaps.pop(0) if gaps else float("inf")
+                rec.ev.append(dict(base, e="S", t=ex((env.now - t0) / ts), x=ex(m.sizes[-1]), y=ex(m.sizes_byte[-1]), **state()))
+            return gaps.pop(0) * ts if gaps else float("inf")
 
         pm[0] = PortMonitor(env, port, dist, pkt_in_service_included=bool(incl))
         env.process(pm[0].run())
 
-    notify[0] = netlib.injector(env, rec, sc["arr"], make_packet, port, on_arrival, origin=t0)
+    notify[0] = netlib.injector(env, rec, sc["arr"], make_packet, port, on_arrival, origin=t0, scale=ts)
     ok = netlib.run_env(env, rec)
     for e in rec.ev:
         if e["e"] == "X":
@@ -140,7 +141,7 @@ def run_one(sc):
             for k, v in base.items():
                 e.setdefault(k, v)
     if ok:
-        rec.ev.append(dict(base, e="Q", t=ex(env.now - t0), **state()))
+        rec.ev.append(dict(base, e="Q", t=ex((env.now - t0) / ts), **state()))
     return {"cfg": cfg, "incl": incl, "noout": 1 if sc.get("noout") else 0, "ev": rec.ev}
 
 
